@@ -58,6 +58,7 @@ def exec_path(prog, fn, blocks, tracked, init=None):
 
     def fresh():
         cx.memo = dict(env)
+        cx.lazy = {}; cx.op_memo = {}
         cx.busy = set()
 
     for b in blocks:
@@ -164,11 +165,13 @@ def closure_cases(prog, clo, argmap):
                 if s["k"] != "assign":
                     continue
                 cx.memo = dict(env)
+                cx.lazy = {}; cx.op_memo = {}
                 cx.busy = set()
                 store(cx, cf, env, s["place"], cx.rvalue(s["rv"], (cf.key, b, i)))
             t = blk.term
             if t["k"] == "call" and t.get("dest") is not None:
                 cx.memo = dict(env)
+                cx.lazy = {}; cx.op_memo = {}
                 cx.busy = set()
                 store(cx, cf, env, t["dest"], cx.call(t, (cf.key, b)))
         out.append({"facts": [fa for e in edges for fa in facts_by_edge.get(e, [])], "value": env.get(0, ("uninit",)), "end": "back"})
@@ -211,4 +214,80 @@ def iteration_cases(prog, fn, v, t):
                     init.append(subst(x, m))
             return {"source": it, "init": init, "cases": cases, "early_exit": any(c == "break" for _, c in lp["exits"]),
                     "form": "loop", "loop": lp}
+    return None
+
+
+def state_iteration(prog, fn, v, t):
+    """Unified path-sensitive view of a traversal that carries a *state* of several accumulators, one of which (`r`) is the value
+    t: `for x in S { a = f(a, x); r = g(r, a, x) }` with separate loop locals, or `S.fold((a0, r0), |(a, r), x| (.., ..)).k`.
+    -> dict(source, form, init={name: term}, cases=[{facts, values={name: term}}], early_exit) with the state at the start of an
+    iteration written ("st", name); names: "r" for the result component, "a0", "a1".. for the others.  None if not recognised."""
+    from .lib import ACC, ITEM, subst, loop_report, is_call, mentions, strip_iter_calls
+    if not isinstance(t, tuple) or not t:
+        return None
+    # ---- fold form
+    comp = None
+    fo = t
+    if t[0] == "field" and t[2] is None and is_call(t[1], name="fold"):
+        comp, fo = t[3], t[1]
+    if is_call(fo, name="fold") and len(fo[2]) == 3:
+        src, init, clo = fo[2]
+        cases = closure_cases(prog, clo, {2: ACC, 3: ITEM})
+        if cases is None:
+            return None
+        if comp is None:
+            names = {None: "r"}
+        else:
+            if not (init[0] == "agg" and init[1] == "tuple"):
+                return None
+            idx = [n for n, _ in init[4]]
+            others = [n for n in idx if n != comp]
+            names = {comp: "r"}
+            names.update({n: "a%d" % i for i, n in enumerate(others)})
+        m = [((lambda x, c=c: x == (ACC if c is None else ("field", ACC, None, c))), ("st", nm)) for c, nm in names.items()]
+        out_cases = []
+        for c in cases:
+            vals = {nm: subst(component(c["value"], cc), m) for cc, nm in names.items()}
+            out_cases.append({"facts": [subst(fa, m) for fa in c["facts"]], "values": vals})
+        init_ = {nm: component(init, cc) for cc, nm in names.items()}
+        return {"source": strip_iter_calls(src), "form": "fold", "init": init_, "cases": out_cases, "early_exit": False}
+    # ---- loop form
+    if t[0] == "phi" and t[1][0] == fn.key:
+        local = t[1][1]
+        for lp in loop_report(prog, fn):
+            if local not in lp["acc"] or lp["iter_term"] is None:
+                continue
+            it = lp["iter_term"]
+            tracked = [local]
+            for _ in range(4):
+                paths = loop_transfer(prog, fn, v, lp, set(tracked))
+                new = []
+                for p in paths:
+                    for l in tracked:
+                        for l2 in lp["acc"]:
+                            if l2 not in tracked and l2 not in new and mentions(p["values"][l], lambda s, l2=l2: s == ("loopvar", fn.key, l2)):
+                                new.append(l2)
+                if not new:
+                    break
+                tracked += new
+            names = {local: "r"}
+            names.update({l: "a%d" % i for i, l in enumerate([l for l in tracked if l != local])})
+            item = lambda x, it=it: x[0] == "some" and is_call(x[1], name="next") and x[1][2] and x[1][2][0] == it
+            m = [((lambda x, l=l: x == ("loopvar", fn.key, l)), ("st", nm)) for l, nm in names.items()] + [(item, ITEM)]
+            cases = []
+            for p in paths:
+                if p["end"] != "back":
+                    continue
+                cases.append({"facts": [subst(fa, m) for fa in p["facts"]], "values": {names[l]: subst(p["values"][l], m) for l in tracked}})
+            init_ = {}
+            for l, nm in names.items():
+                cx = TermCx(prog, fn)
+                cx.busy.add(l)
+                ds = [d for d in fn.defs().get(l, []) if d[0] in ("assign", "call") and d[1] not in lp["body"]]
+                if len(ds) != 1:
+                    return None
+                d = ds[0]
+                init_[nm] = cx.rvalue(d[3], (fn.key, d[1], d[2])) if d[0] == "assign" else cx.call(d[2], (fn.key, d[1]))
+            return {"source": strip_iter_calls(it), "form": "loop", "init": init_, "cases": cases,
+                    "early_exit": any(c == "break" for _, c in lp["exits"]), "loop": lp}
     return None
